@@ -769,9 +769,12 @@ class ExcelCompiler:
             if excel_data.address != address:
                 # if the actual data returned is not the same as the address
                 # given, then use a reference
-                self.cell_map[str(address)] = self.Cell(
+                ref_cell = self.Cell(
                     address, formula=REF_FORMAT.format(excel_data.address),
                     excel=self.excel)
+                self.cell_map[str(address)] = ref_cell
+                # the unbounded range depends on the bounded range
+                add_node_to_graph(ref_cell)
 
             self.range_todos.append(str(excel_data.address))
             new_nodes = build_range(excel_data)
